@@ -32,7 +32,7 @@ fn main() {
         let path = args.get(3).cloned().unwrap_or_default();
         std::process::exit(props::replay(&prop, &path));
     }
-    util::install_watchdog(mode == "thorough");
+    util::install_watchdog(mode == "thorough", &prop);
     let ctx = util::RunCtx { property: prop.clone(), tier: mode, seed, start: Instant::now() };
     let mut code = match util::guard(|| props::run(&ctx)) {
         Ok(c) => c,
